@@ -8,9 +8,9 @@ Local Open Scope N_scope.
 (* an endpoint whose POST and DELETE are ordinary mutations: not served before the gate, not on
    the audited read-only list *)
 Definition plain_endpoint (pkg kw : string) : Prop :=
-  is_shortcut kw = false /\ ~ In (pkg, kw, "post"%string) proved_readonly /\ ~ In (pkg, kw, "delete"%string) proved_readonly.
+  ~ In kw ["blobstore"%string] /\ ~ In (pkg, kw, "post"%string) proved_readonly /\ ~ In (pkg, kw, "delete"%string) proved_readonly.
 
-Lemma post_is_mutation : In "post"%string mutation_methods /\ In "delete"%string mutation_methods.
+Lemma post_is_mutation : In "post"%string write_methods /\ In "delete"%string write_methods.
 Proof. vm_compute. auto 10. Qed.
 
 (* in default mode without the token, the gated machine IS the machine of Model.Core: the gate
@@ -93,4 +93,4 @@ Theorem widened_overwrites_committed :
 Proof. vm_compute. repeat split; auto. Qed.
 
 Example keyvalue_key_is_plain : plain_endpoint "keyvalue" "key".
-Proof. split; [vm_compute; reflexivity|]. split; vm_compute; intuition discriminate. Qed.
+Proof. split; [|split]; vm_compute; intuition discriminate. Qed.
